@@ -87,7 +87,7 @@ CHECKS = {
    ref="6/C08"),
  "C09": dict(
    text="redactString in encrypt mode -> key file content as WriteKeyToFile stores it -> ReadKeyFromFile -> base64 decode -> Decrypt is executed with symbolic plaintext and key; the solver shows the result equals the plaintext. "
-        "The same round trip is shown when the content is itself a ciphertext of an earlier run (value of a redacted line quoted again). The real encoding/base64 code is executed on symbolic bytes (lengths 0..6) and shown to round-trip. 'Never a wrong plaintext' is shown in the SIV sense: whatever Decrypt accepts (another key, arbitrary bytes) re-encrypts to the given ciphertext.",
+        "The same round trip is shown when the content is itself a ciphertext of an earlier run (value of a redacted line quoted again). The real encoding/base64 code is executed on symbolic bytes (lengths 0..6; thorough 0..13, reaching the decoder's 8- and 4-character fast paths) and shown to round-trip. 'Never a wrong plaintext' is shown in the SIV sense: whatever Decrypt accepts (another key, arbitrary bytes) re-encrypts to the given ciphertext.",
    note="tink AEAD, keyset handle and protobuf are uninterpreted functions with Dec(Enc(m))=m, len(Enc)=len(m)+16, Dec-ok => Enc(Dec(c))=c. NOT decided: that a different key / altered ciphertext is *rejected* (authenticity of AES-SIV is a cryptographic claim). The cobra wiring of `decrypt` is not executed.",
    ref="6/C09"),
  "C10": dict(
